@@ -34,7 +34,7 @@ CHECKS = {
         'technique': 'wiring checks: argument/field provenance of the timer set-up calls, must-reach on the registration success path, select-arm addressing, typestate of the notifier slot (assignment only when empty or after take)',
         'level': ('Decides only the wiring that is necessary for the keep-alive property: token echoed, waker armed on every '
                   'registration with ping_timeout, every PING arms a pong_timeout deadline reporting to this session, expiry ends the '
-                  'session, PONG fires the notifier, and a pending deadline is not silently cancelled (the pinned tree violated this; '
+                  'session, PONG fires the notifier (the only place that may empty the notifier slot), and a pending deadline is not silently cancelled (the pinned tree violated this; '
                   'repaired by fix cd06724). Timing bounds ("no later than", "never while answering") are NOT decided.'),
         'note': TRUST + ' Timing and scheduler fairness are runtime quantities (declined).',
     },
@@ -43,7 +43,7 @@ CHECKS = {
         'level': ('Decides the structural necessary conditions of the parsing/framing property: total pre-execution error mapping '
                   '(421/461/472/501/696/417/ERROR), agreement of all command tables, 461 naming its own verb, validation before '
                   'execution with the right validator per field, CR LF encoder constants and single socket writer, colon-introduced '
-                  'trailing free text in every relay/reply template, the serialiser\'s colon condition, the offset arithmetic of the re-sliced prefix, and the delimiter idiom of the '
+                  'that the name validators accept only non-empty names without space, comma or colon (the pinned tree accepted empty names and names with a space given as trailing parameter; repaired by fix 620a70d), trailing free text in every relay/reply template, the serialiser\'s colon condition, the offset arithmetic of the re-sliced prefix, and the delimiter idiom of the '
                   'tokeniser (the pinned tree split at a bare colon; repaired by fix e9ef753).'),
         'note': TRUST + ' The tokeniser\'s agreement with the grammar over ALL strings (blank runs, tabs, multi-byte text) is a runtime-value property and is not decided.',
     },
@@ -76,7 +76,7 @@ CHECKS = {
     'C16': {
         'technique': 'typed census of channel-map writers, departure funnel (caller census) and deletion-condition equivalence, structural shape check of the constructor literals (returned terms), field-wise agreement of the rank-list hand-over, sibling agreement for configured ranks',
         'level': ('Decides that channels are created only by JOIN and configuration loading and deleted only by '
-                  'remove_user_from_channel (through which every departure goes, and which deletes exactly when the channel became empty and is not preconfigured), that a user-created channel is exactly {creator as founder+operator, no topic, default '
+                  'remove_user_from_channel (through which every departure goes, and which deletes exactly when the channel became empty and is not preconfigured), that a JOIN decided as creation always creates (C07 R7.1, with membership tests re-made inside the applying loop treated as loop-carried facts), that the stored modes of a configured channel are the value whose rank lists were moved out, that a user-created channel is exactly {creator as founder+operator, no topic, default '
                   'modes, empty lists, not preconfigured}, that configured channels carry topic/modes from their entry with '
                   'preconfigured=true (only there) and that configured ranks are granted on join.'),
         'note': TRUST + ' The creation condition is decided in C07 R7.1; TOML deserialisation is trusted.',
@@ -123,10 +123,10 @@ CHECKS = {
         'note': TRUST + ' Side channels outside the four commands (PRIVMSG/MODE/TOPIC numerics, timing) are not decided.',
     },
     'C11': {
-        'technique': 'crate-wide assignment census of oper/local_oper with guard entailment; effect-key provenance in user MODE; guard entailment and refusal-condition equivalence for KILL/DIE/SQUIT/WALLOPS/STATS',
+        'technique': 'crate-wide assignment census of oper/local_oper with guard entailment; clearing-condition entailment per user-mode letter; effect-key provenance in user MODE; guard entailment and refusal-condition equivalence for KILL/DIE/SQUIT/WALLOPS/STATS',
         'level': ('Decides that operator flags are raised only in OPER under (configured name, verified password, mask) for the '
                   'own user or copied from the configured defaults (the MODE +o/+O paths of the pinned tree are reported as known '
-                  'findings), that user MODE acts only on the own nick, that operator commands act only under the operator '
+                  'findings), that user MODE acts only on the own nick and that MODE -<letter> clears a set flag under no further condition (status can always be given up), that operator commands act only under the operator '
                   'predicate and refuse otherwise, that KILL names the killer and WALLOPS fans out over exactly the +w set.'),
         'note': TRUST + ' wallops_users == users with +w is the coupling result of C19.',
     },
